@@ -159,6 +159,108 @@ func (r *coreRun) loadLimits() {
 	}
 }
 
+// loadThenSync (C01/C06): a fresh instance on a copy of the replica's durable state loads only the n most
+// recent entries, then receives an older entry as a head (Sync): once it holds the same entries as the
+// replica it was copied from, its listing and view must be the same.
+func (r *coreRun) loadThenSync() {
+	for _, name := range r.c.names {
+		full := r.c.listing(name)
+		tot := len(full)
+		if tot < 2 {
+			continue
+		}
+		var wantView map[string]string
+		if r.in.Type != "log" {
+			v, err := r.view(name)
+			if err != nil {
+				continue
+			}
+			wantView = v
+		}
+		kind := "convergence"
+		if r.in.Property == "C06" {
+			kind = "view" // the replica copied from has just been compared with the replay of its log
+		}
+		tried := map[int]bool{}
+		for _, n := range []int{1, tot / 2, tot - 1} {
+			if n < 1 || n >= tot || tried[n] {
+				continue
+			}
+			tried[n] = true
+			r.step = -100 - n
+			func() {
+				p := r.c.nodes[name].P
+				q := p.CloneDurable(p.EffectCount())
+				node, err := q.Start("")
+				if err != nil {
+					r.res.Inconclusive = append(r.res.Inconclusive, r.bid+": load-then-sync start: "+err.Error())
+					return
+				}
+				defer node.Close()
+				ref, err := node.Open(r.c.addr, realType(r.in.Type), &orbitdb.CreateDBOptions{Timeout: 3 * time.Second})
+				if err != nil {
+					r.res.Inconclusive = append(r.res.Inconclusive, r.bid+": load-then-sync open: "+err.Error())
+					return
+				}
+				mark("%s: copy of replica %s Load(%d) of %d entries, then Sync of the older entries", r.bid, name, n, tot)
+				ctx, cancel := context.WithTimeout(context.Background(), 10*time.Second)
+				defer cancel()
+				if err := ref.S.Load(ctx, n); err != nil {
+					r.res.Inconclusive = append(r.res.Inconclusive, fmt.Sprintf("%s: load-then-sync: replica %s Load(%d): %v", r.bid, name, n, err))
+					return
+				}
+				held := map[int]bool{}
+				for _, e := range ref.S.OpLog().Values().Slice() {
+					held[r.c.ids[e.GetHash().String()]] = true
+				}
+				// every entry it does not hold is handed over as a head, most recent first, in one Sync
+				heads := []ipfslog.Entry{}
+				for i := tot - 1; i >= 0; i-- {
+					if !held[full[i]] {
+						heads = append(heads, copyEntry(r.c.entries[full[i]]))
+					}
+				}
+				if len(heads) == 0 {
+					return
+				}
+				if err := ref.S.Sync(ctx, heads); err != nil {
+					r.violate("sync-error", "Sync of valid older entries failed: "+err.Error(), nil, nil)
+					return
+				}
+				if err := sim.Settle(settleTimeout, node); err != nil {
+					r.res.Inconclusive = append(r.res.Inconclusive, r.bid+": load-then-sync: "+err.Error())
+					return
+				}
+				r.res.Comparisons++
+				r.res.Stats["load_then_sync"]++
+				got := []int{}
+				for _, e := range ref.S.OpLog().Values().Slice() {
+					got = append(got, r.c.ids[e.GetHash().String()])
+				}
+				what := fmt.Sprintf("copy of replica %s after Load(%d) and Sync of the %d older entries", name, n, len(heads))
+				if !eqInts(got, full) {
+					r.violate("convergence", what+": does not list the log of the replica it was copied from", full, got)
+					return
+				}
+				if r.in.Type == "log" {
+					return
+				}
+				saved := r.c.refs[name]
+				r.c.refs[name] = ref
+				v, err := r.view(name)
+				r.c.refs[name] = saved
+				if err != nil {
+					r.violate("view-error", what+": "+err.Error(), nil, nil)
+					return
+				}
+				if !eqStrMap(v, wantView) {
+					r.violate(kind, what+": holds the same entries as the replica it was copied from but shows a different view", wantView, v)
+				}
+			}()
+		}
+	}
+}
+
 // ---------------------------------------------------------------------------
 // C13: snapshots
 
